@@ -60,3 +60,21 @@ func VerifCacheDump(v *Vue) string {
 	}
 	return sb.String()
 }
+
+// VerifIsFunctionCall, VerifIsComplexExpr, VerifNormalizeCmp expose the routing predicates.
+func VerifIsFunctionCall(e string) bool { return helpers.IsFunctionCall(e) }
+func VerifIsComplexExpr(e string) bool  { return helpers.IsComplexExpr(e) }
+func VerifNormalizeCmp(e string) string { return helpers.NormalizeComparisonOperators(e) }
+
+// VerifParsePipe exposes parsePipeExpr: the initial term and, per segment, its kind, name and arguments.
+func VerifParsePipe(e string) (initial string, segs [][]string) {
+	p := parsePipeExpr(e)
+	for _, s := range p.segments {
+		if s.typ == segmentFilter {
+			segs = append(segs, append([]string{"filter", s.name}, s.args...))
+		} else {
+			segs = append(segs, []string{"expr", s.expr})
+		}
+	}
+	return p.initial, segs
+}
